@@ -52,9 +52,12 @@ Record guards := mkguards {
   g_published : bool;  (* f02e04b  IdentityState.Published == nil -> "not published" *)
   g_aux       : bool;  (* 88617d1  NodeAux without key / value -> error *)
   g_recover   : bool;  (* 88617d1  recover() around merkletree.RootFromProof *)
-  g_authlen   : bool   (* 132912a  Authentication.UnmarshalJSON: len(b) == 0 *)
+  g_authlen   : bool;  (* 132912a  Authentication.UnmarshalJSON: len(b) == 0 *)
+  g_didnull   : bool;  (* e2efde3  HTTPDIDResolver.Resolve: Decode(res), not Decode(&res) *)
+  g_mtpjson   : bool   (* c1afc2d  decodeMTP: > 240 siblings / a null sibling -> error, before the
+                          dependency's decoder (and, later, its encoder) can panic *)
 }.
-Definition all_guards : guards := mkguards true true true true true true true true true.
+Definition all_guards : guards := mkguards true true true true true true true true true true true.
 
 (* --------------------------------------------------------- hashing, values *)
 (* *big.Int that may be nil *)
@@ -270,56 +273,45 @@ Definition make_slice (n : Z) : res nat :=
 
 (* Merklizer.UnmarshalBinary / MerklizerFromBytes (binary_encoding.go:216-324).
    len_in = len(in); given = Some r when the caller supplied a tree (WithMerkleTree)
-   whose root is r.  Second component: number of RDFEntry slots requested from the
-   allocator by `make` (the slice and the map are sized by the same number). *)
+   whose root is r.  Header: everything up to and including the entry count. *)
+Definition merklizer_header (g : guards) (len_in : Z) (given : option Z) (s : list tok)
+  : res (Z * list tok) :=
+  vr <- dec_int s ;;
+  if negb (fst vr =? 1) then Err "mz-version" else
+  sr <- dec_bytes (snd vr) ;;
+  cr <- dec_bytes (snd sr) ;;
+  match fst cr with
+  | JOtherValue | JInvalid => Err "compacted-json"
+  | _ =>
+      rr <- dec_big (snd cr) ;;
+      if (match given with Some r => negb (r =? fst rr) | None => false end)
+      then Err "root-mismatch" else
+      nr <- dec_int (snd rr) ;;
+      if g_count g && ((fst nr <? 0) || (len_in <? fst nr)) then Err "entries-count"
+      else Ok nr
+  end.
+
+(* from `entries := make([]RDFEntry, entriesLen)` to the end *)
+Definition merklizer_body (g : guards) (P : prim) (t0 : T) (given : option Z) (h : Z * list tok)
+  : res (T * bool) :=
+  cnt <- make_slice (fst h) ;;
+  er <- dec_entries cnt (snd h) [] ;;
+  t <- match given with
+       | None => add_entries g P t0 (fst er)
+       | Some _ => Ok t0
+       end ;;
+  br <- dec_bool (snd er) ;;
+  Ok (t, fst br).
+
+(* Second component: the number of RDFEntry slots `make` is asked for (the slice and
+   the map are sized by the same number); 0 when `make` is not reached. *)
 Definition merklizer_unmarshal (g : guards) (P : prim) (t0 : T) (len_in : Z) (given : option Z)
            (s : list tok) : res (T * bool) * Z :=
-  match dec_int s with
-  | Ok (ver, s1) =>
-    if negb (ver =? 1) then (Err "mz-version", 0) else
-    match dec_bytes s1 with
-    | Ok (_, s2) =>
-      match dec_bytes s2 with
-      | Ok (j, s3) =>
-        match j with
-        | JOtherValue | JInvalid => (Err "compacted-json", 0)
-        | _ =>
-          match dec_big s3 with
-          | Ok (root, s4) =>
-            if (match given with Some r => negb (r =? root) | None => false end)
-            then (Err "root-mismatch", 0) else
-            match dec_int s4 with
-            | Ok (n, s5) =>
-              if g_count g && ((n <? 0) || (len_in <? n)) then (Err "entries-count", 0) else
-              match make_slice n with
-              | Ok cnt =>
-                (match dec_entries cnt s5 [] with
-                 | Ok (es, s6) =>
-                   match (match given with
-                          | None => add_entries g P t0 es
-                          | Some _ => Ok t0
-                          end) with
-                   | Ok t =>
-                     match dec_bool s6 with
-                     | Ok (safe, _) => Ok (t, safe)
-                     | Err e => Err e | Panic w => Panic w | Diverge => Diverge
-                     end
-                   | Err e => Err e | Panic w => Panic w | Diverge => Diverge
-                   end
-                 | Err e => Err e | Panic w => Panic w | Diverge => Diverge
-                 end, n)
-              | Err e => (Err e, 0) | Panic w => (Panic w, 0) | Diverge => (Diverge, 0)
-              end
-            | Err e => (Err e, 0) | Panic w => (Panic w, 0) | Diverge => (Diverge, 0)
-            end
-          | Err e => (Err e, 0) | Panic w => (Panic w, 0) | Diverge => (Diverge, 0)
-          end
-        end
-      | Err e => (Err e, 0) | Panic w => (Panic w, 0) | Diverge => (Diverge, 0)
-      end
-    | Err e => (Err e, 0) | Panic w => (Panic w, 0) | Diverge => (Diverge, 0)
-    end
-  | Err e => (Err e, 0) | Panic w => (Panic w, 0) | Diverge => (Diverge, 0)
+  match merklizer_header g len_in given s with
+  | Ok h => (merklizer_body g P t0 given h, fst h)
+  | Err e => (Err e, 0)
+  | Panic w => (Panic w, 0)
+  | Diverge => (Diverge, 0)
   end.
 
 End Tree.
@@ -367,9 +359,23 @@ Definition mtpj_safe (p : mtpj) : bool :=
 Definition omtpj_safe (o : option mtpj) : bool :=
   match o with Some p => mtpj_safe p | None => true end.
 
-(* an optional "mtp" member *)
-Definition opt_mtp_unmarshal (o : option mtpj) : res unit :=
-  match o with Some p => mt_proof_unmarshal p | None => Ok tt end.
+Definition is_null (s : sib) : bool := match s with SNull => true | _ => false end.
+
+(* verifiable.decodeMTP (mtp_json.go, c1afc2d) on a present, non-null value: the
+   shape check (`siblings` is an array of at most 240 non-null values) runs before
+   the dependency's decoder.  Without the guard the dependency's decoder is called
+   directly, as encoding/json did through *mt.Proof / mt.Proof fields. *)
+Definition decode_mtp (g : guards) (p : mtpj) : res unit :=
+  if g_mtpjson g then
+    if negb (mj_kinds_ok p) then Err "mtp-json"
+    else if Nat.ltb 240 (List.length (mj_sibs p)) then Err "mtp-too-many-siblings"
+    else if existsb is_null (mj_sibs p) then Err "mtp-null-sibling"
+    else mt_proof_unmarshal p
+  else mt_proof_unmarshal p.
+
+(* an optional "mtp" member (absent / null: the proof stays nil) *)
+Definition opt_mtp_unmarshal (g : guards) (o : option mtpj) : res unit :=
+  match o with Some p => decode_mtp g p | None => Ok tt end.
 
 (* ------------------------------------------------ decoding proofs (proof.go) *)
 Inductive pkind := PBJJ | PSMTOld | PSMT | PCommon.
@@ -384,24 +390,28 @@ Record proofj := mkproofj {
   pj_obj : bool;               (* the element is a JSON object *)
   pj_type : option pkind;      (* "type" is a string, and which; None: absent or not a string *)
   pj_kinds_ok : bool;          (* members of the first json.Unmarshal have acceptable kinds *)
-  pj_mtp : option mtpj;        (* top-level "mtp" (SMT proofs decode it in the first Unmarshal) *)
+  pj_mtp : option mtpj;        (* top-level "mtp" (SMT proofs) *)
   pj_issuer : option issuerj;  (* "issuerData"; None: absent (nil RawMessage -> Unmarshal error) *)
   pj_claim_ok : bool;          (* validateHexCoreClaim *)
   pj_sig_ok : bool             (* validateCompSignature *)
 }.
 
-(* json.Unmarshal(obj.IssuerData, &p.IssuerData): a kind error is remembered and
-   decoding goes on, an error (or panic) of Proof.UnmarshalJSON ends it *)
-Definition issuer_unmarshal (o : option issuerj) : res unit :=
+(* IssuerData.UnmarshalJSON (c1afc2d): the members first, then decodeMTP(mtp).
+   Before: plain struct decoding, in which a kind error is remembered while
+   decoding goes on and an error (or panic) of Proof.UnmarshalJSON ends it. *)
+Definition issuer_unmarshal (g : guards) (o : option issuerj) : res unit :=
   match o with
   | None => Err "issuerData-absent"
   | Some i =>
-      _ <- opt_mtp_unmarshal (ij_mtp i) ;;
-      if ij_kinds_ok i then Ok tt else Err "issuerData-kind"
+      if g_mtpjson g then
+        if negb (ij_kinds_ok i) then Err "issuerData-kind" else opt_mtp_unmarshal g (ij_mtp i)
+      else
+        _ <- opt_mtp_unmarshal g (ij_mtp i) ;;
+        if ij_kinds_ok i then Ok tt else Err "issuerData-kind"
   end.
 
 (* extractProof + the UnmarshalJSON method it selects *)
-Definition extract_proof (p : proofj) : res pkind :=
+Definition extract_proof (g : guards) (p : proofj) : res pkind :=
   if negb (pj_obj p) then Err "proof-not-object" else
   match pj_type p with
   | None => Err "proof-type"
@@ -409,47 +419,55 @@ Definition extract_proof (p : proofj) : res pkind :=
   | Some PBJJ =>
       (* aux struct has no mtp member *)
       if negb (pj_kinds_ok p) then Err "proof-kind" else
-      _ <- issuer_unmarshal (pj_issuer p) ;;
+      _ <- issuer_unmarshal g (pj_issuer p) ;;
       if negb (pj_claim_ok p) then Err "core-claim" else
       if negb (pj_sig_ok p) then Err "signature" else Ok PBJJ
   | Some k =>
-      _ <- opt_mtp_unmarshal (pj_mtp p) ;;
-      if negb (pj_kinds_ok p) then Err "proof-kind" else
-      _ <- issuer_unmarshal (pj_issuer p) ;;
-      if negb (pj_claim_ok p) then Err "core-claim" else Ok k
+      if g_mtpjson g then
+        (* "mtp" is taken as raw bytes and decoded last *)
+        if negb (pj_kinds_ok p) then Err "proof-kind" else
+        _ <- issuer_unmarshal g (pj_issuer p) ;;
+        if negb (pj_claim_ok p) then Err "core-claim" else
+        _ <- opt_mtp_unmarshal g (pj_mtp p) ;; Ok k
+      else
+        (* "mtp" was a *mt.Proof member of the first json.Unmarshal *)
+        _ <- opt_mtp_unmarshal g (pj_mtp p) ;;
+        if negb (pj_kinds_ok p) then Err "proof-kind" else
+        _ <- issuer_unmarshal g (pj_issuer p) ;;
+        if negb (pj_claim_ok p) then Err "core-claim" else Ok k
   end.
 
 (* the JSON value under "proof" *)
 Inductive proofsj := PJNull | PJArray (l : list proofj) | PJSingle (p : proofj).
 
-Fixpoint extract_all (l : list proofj) : res (list pkind) :=
+Fixpoint extract_all (g : guards) (l : list proofj) : res (list pkind) :=
   match l with
   | [] => Ok []
-  | p :: t => k <- extract_proof p ;; r <- extract_all t ;; Ok (k :: r)
+  | p :: t => k <- extract_proof g p ;; r <- extract_all g t ;; Ok (k :: r)
   end.
 
 (* CredentialProofs.UnmarshalJSON *)
-Definition proofs_unmarshal (j : proofsj) : res (list pkind) :=
+Definition proofs_unmarshal (g : guards) (j : proofsj) : res (list pkind) :=
   match j with
   | PJNull => Err "proof-null"
-  | PJArray l => extract_all l
-  | PJSingle p => k <- extract_proof p ;; Ok [k]
+  | PJArray l => extract_all g l
+  | PJSingle p => k <- extract_proof g p ;; Ok [k]
   end.
 
 (* W3CCredential: the "proof" member goes through CredentialProofs.UnmarshalJSON;
    a kind error in another member is remembered while decoding goes on *)
 Record credj := mkcredj { cj_kinds_ok : bool; cj_proof : option proofsj }.
-Definition cred_unmarshal (c : credj) : res unit :=
-  _ <- match cj_proof c with Some j => proofs_unmarshal j | None => Ok [] end ;;
+Definition cred_unmarshal (g : guards) (c : credj) : res unit :=
+  _ <- match cj_proof c with Some j => proofs_unmarshal g j | None => Ok [] end ;;
   if cj_kinds_ok c then Ok tt else Err "credential-kind".
 
 (* -------------------------------------------- DID documents, status answers *)
 (* a verification method: embedded IdentityState.global.proof is a GistInfoProof,
-   whose UnmarshalJSON first decodes a merkletree.Proof from the same bytes *)
+   whose UnmarshalJSON first decodes a merkle proof from the same bytes *)
 Record vmj := mkvmj { vj_kinds_ok : bool; vj_gist : option mtpj }.
 
-Definition vm_unmarshal (v : vmj) : res unit :=
-  _ <- opt_mtp_unmarshal (vj_gist v) ;;
+Definition vm_unmarshal (g : guards) (v : vmj) : res unit :=
+  _ <- opt_mtp_unmarshal g (vj_gist v) ;;
   if vj_kinds_ok v then Ok tt else Err "vm-kind".
 
 (* the bytes handed to Authentication.UnmarshalJSON *)
@@ -464,7 +482,7 @@ Definition auth_unmarshal (g : guards) (a : authj) : res unit :=
   match a with
   | ANilBytes => Ok tt
   | AEmpty => if g_authlen g then Ok tt else Panic "index out of range [0] with length 0"
-  | AObject v => match vm_unmarshal v with
+  | AObject v => match vm_unmarshal g v with
                  | Ok _ => Ok tt | Err _ => Err "auth-payload" | Panic w => Panic w | Diverge => Diverge
                  end
   | AString ok => if ok then Ok tt else Err "auth-did"
@@ -484,14 +502,18 @@ Fixpoint each {A} (f : A -> res unit) (l : list A) : res unit :=
    with sorted keys: assertionMethod, authentication, ..., verificationMethod *)
 Definition diddoc_unmarshal (g : guards) (d : diddocj) : res unit :=
   _ <- each (auth_unmarshal g) (dj_auths d) ;;
-  _ <- each vm_unmarshal (dj_vms d) ;;
+  _ <- each (vm_unmarshal g) (dj_vms d) ;;
   if dj_kinds_ok d then Ok tt else Err "diddoc-kind".
 
-(* RevocationStatus: {"issuer": TreeState, "mtp": merkletree.Proof} *)
+(* RevocationStatus: {"issuer": TreeState, "mtp": merkletree.Proof};
+   RevocationStatus.UnmarshalJSON (c1afc2d): the members first, then decodeMTP(mtp) *)
 Record statusj := mkstatusj { sj_kinds_ok : bool; sj_mtp : option mtpj }.
-Definition status_unmarshal (s : statusj) : res unit :=
-  _ <- opt_mtp_unmarshal (sj_mtp s) ;;
-  if sj_kinds_ok s then Ok tt else Err "status-kind".
+Definition status_unmarshal (g : guards) (s : statusj) : res unit :=
+  if g_mtpjson g then
+    if negb (sj_kinds_ok s) then Err "status-kind" else opt_mtp_unmarshal g (sj_mtp s)
+  else
+    _ <- opt_mtp_unmarshal g (sj_mtp s) ;;
+    if sj_kinds_ok s then Ok tt else Err "status-kind".
 
 (* --------------------------------------------------- verification skeletons *)
 (* `*string` meant to hold the hex form of a 32-byte hash: nil / undecodable / decodable *)
@@ -562,6 +584,7 @@ Definition verify_mtp (g : guards) (p : option mtpf) : res bool :=
    decodes with json into DIDDocument (HTTPDIDResolver.Resolve) *)
 Inductive didans :=
 | DErr
+| DNull                                (* the HTTP body is the JSON literal null *)
 | DDoc (dec : diddocj)                 (* shape of the document, for the decoder *)
        (info : option (option bool)).  (* None: no Iden3StateInfo2023 method; Some p: its `published` pointer *)
 
@@ -573,6 +596,23 @@ Record issuerf := mkissuerf {
   i_genesis : option bool      (* core.CheckGenesisStateID; None = error *)
 }.
 
+(* HTTPDIDResolver.Resolve; the result is projected to what the verifiers look at:
+   None = the document has no Iden3StateInfo2023 method, Some p = that method's
+   `published` pointer *)
+Definition did_resolve (g : guards) (a : didans) : res (option (option bool)) :=
+  match a with
+  | DErr => Err "did-resolve"
+  | DNull => if g_didnull g then Ok None           (* the zero DIDDocument *)
+             else Panic "nil dereference: res.DIDDocument"
+  | DDoc dec info =>
+      match diddoc_unmarshal g dec with
+      | Err _ => Err "did-resolve"
+      | Panic w => Panic w
+      | Diverge => Diverge
+      | Ok _ => Ok info
+      end
+  end.
+
 (* `published or genesis` block shared by the two verifiers, from
    `State.Value == nil` to CheckGenesisStateID *)
 Definition check_published (g : guards) (i : issuerf) : res unit :=
@@ -580,31 +620,19 @@ Definition check_published (g : guards) (i : issuerf) : res unit :=
   | HNil_ => if g_value g then Err "state-value-unset" else Panic "nil dereference: *State.Value"
   | HBad => Err "state-value-hex"
   | HGood =>
-      match i_resolve i with
-      | DErr => Err "did-resolve"
-      | DDoc dec info =>
-        match diddoc_unmarshal g dec with
-        | Err _ => Err "did-resolve"
-        | Panic w => Panic w
-        | Diverge => Diverge
-        | Ok _ =>
-        match info with
-        | None => Err "no-stateinfo"
-        | Some pub =>
-          published <- match pub with
-                       | None => if g_published g then Ok false
-                                 else Panic "nil dereference: *Published"
-                       | Some b => Ok b
-                       end ;;
-          if (published : bool) then Ok tt else
-          if negb (i_id_ok i) then Err "id-from-did" else
-          match i_genesis i with
-          | None => Err "genesis-error"
-          | Some false => Err "not-published-not-genesis"
-          | Some true => Ok tt
-          end
-        end
-        end
+      info <- did_resolve g (i_resolve i) ;;
+      pub <- of_option info "no-stateinfo" ;;    (* getIden3StateInfo2023FromDIDDocument *)
+      published <- match pub with
+                   | None => if g_published g then Ok false
+                             else Panic "nil dereference: *Published"
+                   | Some b => Ok b
+                   end ;;
+      if (published : bool) then Ok tt else
+      if negb (i_id_ok i) then Err "id-from-did" else
+      match i_genesis i with
+      | None => Err "genesis-error"
+      | Some false => Err "not-published-not-genesis"
+      | Some true => Ok tt
       end
   end.
 
@@ -632,7 +660,7 @@ Definition validate_status (g : guards) (st : statusf) : res unit :=
   match st_answer st with
   | RAErr => Err "status-resolver"
   | RAns dec iss mtp =>
-      _ <- match status_unmarshal dec with
+      _ <- match status_unmarshal g dec with
            | Err _ => Err "status-resolver"
            | other => other
            end ;;
@@ -730,29 +758,39 @@ Definition verify_smt (g : guards) (s : smtf) : res unit :=
       end
   end.
 
-(* W3CCredential.VerifyProof.  `deep`: some merkle proof of the selected proof has
-   more than 240 siblings - remarshalObj then calls Proof.MarshalJSON, whose
-   SiblingsFromProof indexes the 30-byte `notempties` with level/8 (NOT guarded in
-   /repo; such a proof decodes when the siblings beyond level 239 are zero) *)
+(* W3CCredential.VerifyProof on a credential as json.Unmarshal delivered it.
+   `deep`: some merkle proof of SOME typed proof of the credential has more than 240
+   siblings.  Since c1afc2d the decoders reject such a proof (decodeMTP), so the
+   credential does not decode and VerifyProof is never reached: with the guard the
+   skeleton answers that decode error.  Before, the proof decoded when the siblings
+   beyond level 239 were zero, and verifyCredentialCoreClaim -> ToCoreClaim -> Merklize
+   -> json.Marshal(vc) -> Proof.MarshalJSON -> SiblingsFromProof indexed the 30-byte
+   `notempties` with level/8 and panicked (remarshalObj would have done the same). *)
 Inductive proofsel :=
 | SelNone                          (* no proof of the requested type *)
-| SelBJJ (claim_ok bind_ok deep remarshal_ok : bool) (b : bjjf)
-| SelSMT (claim_ok bind_ok deep remarshal_ok : bool) (s : smtf)
-| SelOther (claim_ok bind_ok : bool).   (* a proof type VerifyProof does not support *)
+| SelBJJ (claim_ok deep bind_ok remarshal_ok : bool) (b : bjjf)
+| SelSMT (claim_ok deep bind_ok remarshal_ok : bool) (s : smtf)
+| SelOther (claim_ok deep bind_ok : bool).   (* a proof type VerifyProof does not support *)
 
-Definition remarshal (deep remarshal_ok : bool) : res unit :=
-  if deep then Panic "Proof.MarshalJSON: index out of range (more than 240 siblings)"
-  else if remarshal_ok then Ok tt else Err "remarshal".
+(* verifyCredentialCoreClaim, as far as totality is concerned *)
+Definition binding (g : guards) (deep bind_ok : bool) : res unit :=
+  if deep then
+    if g_mtpjson g then Err "mtp-too-many-siblings"    (* json.Unmarshal already failed *)
+    else Panic "Proof.MarshalJSON: index out of range (more than 240 siblings)"
+  else if bind_ok then Ok tt else Err "binding".
 
 Definition verify_proof (g : guards) (p : proofsel) : res unit :=
   match p with
   | SelNone => Err "proof-not-found"
-  | SelBJJ c bd deep rm b =>
-      if negb c then Err "core-claim" else if negb bd then Err "binding" else
-      _ <- remarshal deep rm ;; verify_bjj g b
-  | SelSMT c bd deep rm s =>
-      if negb c then Err "core-claim" else if negb bd then Err "binding" else
-      _ <- remarshal deep rm ;; verify_smt g s
-  | SelOther c bd =>
-      if negb c then Err "core-claim" else if negb bd then Err "binding" else Err "proof-not-supported"
+  | SelBJJ c deep bd rm b =>
+      if negb c then Err "core-claim" else
+      _ <- binding g deep bd ;;
+      if negb rm then Err "remarshal" else verify_bjj g b
+  | SelSMT c deep bd rm s =>
+      if negb c then Err "core-claim" else
+      _ <- binding g deep bd ;;
+      if negb rm then Err "remarshal" else verify_smt g s
+  | SelOther c deep bd =>
+      if negb c then Err "core-claim" else
+      _ <- binding g deep bd ;; Err "proof-not-supported"
   end.
